@@ -15,7 +15,7 @@ mkdir -p "$wt/SEED" && cp -r "$inbox"/* "$wt/SEED/"
 cd "$wt"
 # demos refer to /tmp/seed-<prop>; point them at this worktree
 prop=$(echo "$name" | cut -d- -f1)
-sed -i "s#/tmp/seed5-$prop#$wt#g; s#/tmp/seed4-$prop#$wt#g; s#/tmp/seed3-$prop#$wt#g; s#/tmp/seed2-$prop#$wt#g; s#/tmp/seed-$prop#$wt#g" SEED/*.sh SEED/*.rs 2>/dev/null
+sed -i "s#/tmp/seed6-$prop#$wt#g; s#/tmp/seed5-$prop#$wt#g; s#/tmp/seed4-$prop#$wt#g; s#/tmp/seed3-$prop#$wt#g; s#/tmp/seed2-$prop#$wt#g; s#/tmp/seed-$prop#$wt#g" SEED/*.sh SEED/*.rs 2>/dev/null
 export CARGO_TARGET_DIR="$wt/target" CARGO_NET_OFFLINE=true
 mkdir -p "$wt/target"
 bash "SEED/$demo"; d0=$?
